@@ -56,7 +56,9 @@ def random_programs(ctx, cases, count):
 def run(ctx):
     binp = vlib.cargo_build("c04")
     for consts in MODEL[ctx.tier]:
-        vlib.tlc_mc(ctx, "Params", {"constants": consts, "invariants": INVS}, coverage_actions=ACTIONS)
+        # the three HEAVY builders have no constructor argument, so `New` cannot occur in their run
+        acts = [a for a in ACTIONS if a != "New"] if consts["AlgSet"] == vlib.tla_set(HEAVY) else ACTIONS
+        vlib.tlc_mc(ctx, "Params", {"constants": consts, "invariants": INVS}, coverage_actions=acts)
     cases = vlib.tlc_gen(ctx, "Gen_Params", {"init": "GenInit", "next": "GenNext", "constants": GEN[ctx.tier],
                                             "invariants": ["Emit"]}, xmx="8g")
     ctx.exhaustive = True
